@@ -17,7 +17,10 @@ SPEC = {
              "flip of solution, input and nonce; (3) index-level mutations re-encoded to minimal form: sibling swap at every level, "
              "cousin swap (+re-canonicalised), duplicated index, doubled blocks at every level, substitution of an index by one that "
              "collides on a chosen chunk, substitution of a subtree by another partial solution from the solver's lists, near "
-             "solutions whose last chunk alone is non-zero, spliced halves of two solutions, sorted/reversed/rotated; (4) random "
+             "solutions whose last chunk alone is non-zero, sequences whose last chunk alone cancels at the top level, spliced halves of two "
+             "solutions, sorted/reversed/rotated, valid encodings with a byte appended/removed; sequences from the solver's lists whose "
+             "*only* defect is a repeated index (one repeated leaf at any position, or a repeated subtree [A1,A2,B1,A2] with A1,B1 "
+             "colliding on every bit; hunted on thousands of (32,3)/(40,4) instances); (4) random "
              "byte strings of every length 0..2000; (5) the grid n in 0..600 + extremes x k in 0..40 + extremes x lengths {0,1,2,3,"
              "random,L-1,L+1,L/2,2L,L} with zero / sequential / all-ones / affine / random contents at the right length L. "
              "Distinctness: (source or mutation kind, n, k, tree level or chunk, verdict). Non-trivial = the parameters are valid "
@@ -30,7 +33,7 @@ SPEC = {
         "tolerated, a panic or an accepted invalid solution is not",
     ],
     "tiers": {
-        "quick": {"shards": 12, "budget_s": 35, "extra": {"heavy-shards": 2}},
+        "quick": {"shards": 12, "budget_s": 35, "extra": {"heavy-shards": 1}},
         "thorough": {"shards": 16, "budget_s": 420, "extra": {"heavy-shards": 3}},
     },
     "floors": {
@@ -39,12 +42,16 @@ SPEC = {
             "grid_points": 33_000, "grid_shards_completed": 12, "grid_valid_param_pairs": 500,
             "grid_pairs_right_length_supplied": 400, "grid_calls_right_length": 1500,
             "solver_solutions": 300, "valid_solver": 300, "valid_vector": 46, "valid_header": 1,
-            "valid_n48_k5": 100, "valid_n96_k5": 20, "valid_n200_k9": 8, "valid_n144_k5": 10, "valid_n96_k3": 1,
+            "valid_n48_k5": 100, "valid_n96_k5": 20, "valid_n200_k9": 8, "valid_n144_k5": 10,
             "valid_n104_k7": 5, "valid_n136_k7": 1, "valid_n72_k5": 5, "valid_n64_k3": 1, "valid_n144_k8": 1,
             "bitflips_soln": 50_000, "bitflips_input": 50_000, "bitflips_nonce": 50_000,
             "judged_mut-swap-siblings": 1000, "judged_mut-swap-cousins-canon": 800, "judged_mut-duplicate-index-canon": 200,
             "judged_mut-doubled-blocks": 1000, "judged_mut-chunk-collider": 800, "judged_mut-subtree-substitute": 400,
             "judged_near-solution": 300, "near_solutions_last_chunk_differs_only_in_low_byte": 20,
+            "judged_near-solution-last-chunk-only": 300, "judged_embedded-duplicate-subtree": 50,
+            "embedded_duplicate_not_in_first_position": 20, "judged_single-duplicate-leaf": 1000,
+            "single_duplicate_leaf_inner_in_left_last_in_right": 50, "single_duplicate_leaf_meeting_at_top_level": 300,
+            "single_duplicate_leaf_meeting_below_top_level": 200, "valid_solution_with_wrong_length_calls": 5000,
             "judged_invalid-vector": 9,
             "rust_err_collision": 1000, "rust_err_order": 1000, "rust_err_duplicate": 500, "rust_err_nonzero-root": 100,
             "rust_err_params": 100_000, "random_strings_wrong_length": 2000, "random_strings_right_length": 200,
@@ -58,6 +65,9 @@ SPEC = {
             "bitflips_soln": 500_000, "bitflips_input": 500_000, "bitflips_nonce": 500_000,
             "judged_mut-swap-siblings": 10_000, "judged_mut-doubled-blocks": 10_000, "judged_mut-chunk-collider": 8000,
             "judged_mut-subtree-substitute": 4000, "judged_near-solution": 3000,
+            "judged_near-solution-last-chunk-only": 3000, "judged_embedded-duplicate-subtree": 500,
+            "judged_single-duplicate-leaf": 10_000, "single_duplicate_leaf_inner_in_left_last_in_right": 500,
+            "valid_solution_with_wrong_length_calls": 50_000,
             "rust_err_collision": 10_000, "rust_err_order": 10_000, "rust_err_duplicate": 5000, "rust_err_nonzero-root": 1000,
             "ref_judged": 100_000, "selftest_vectors": 56,
         },
@@ -157,7 +167,9 @@ def judge_file(path):
                 viol("C19:is_valid_solution:accepted-invalid:%s:%s" % (origin, _reason_class(why)),
                      "n=%d k=%d %s (level/chunk %s): accepted, reference says invalid (%s)" % (n, k, origin, e.get("level"), why), replay)
             elif (not rust_ok) and ok:
-                if in_envelope(n, k):
+                if e.get("expect") == "valid":
+                    cnt("rejected_valid_already_reported_by_shard")
+                elif in_envelope(n, k):
                     viol("C19:is_valid_solution:rejected-valid:%s:%s" % (origin, e["rust"]),
                          "n=%d k=%d %s: rejected (%s), reference says valid" % (n, k, origin, e["rust"]), replay)
                 else:
